@@ -10,7 +10,11 @@ import Driver.Util
     dt    <table> <code>                 data type code table row + reverse lookup
     codec <e> <w> <v>                    byte codec
     fdec  <f32|f64|i64> <pattern>        float classes used by the checks
-    fromhdr <src> <dst> <e> <hex>        Dst.from_header(src, check=False): provenance of EVERY field
+    fromhdr <src> <dst> <e> <hex>        Dst.from_header(src, check=False): provenance of EVERY field; datatype / bitpix /
+                                         dim / pixdim (same float width) / magic READ BACK from the converted record,
+                                         whose setter values come from `fromHeaderG?` (HeaderDataError = none)
+    world <cls> <e> <hex> <script>       objects and buffers: script = comma list of c<i> (copy), y<i> (as_byteswapped),
+                                         s<i>:<field>:<p0>/<p1>/.. (obj_i[field] = items); bytes of every object at the end
     fhpix <f32|f64> <ndim> <p0,..,p7>    pixdim of from_header(src) for another class of the same float width
     pfix  <cls> <e> <glob> <l1,l2,..> <hex>   the PUBLIC hdr.check_fix(error_level=l_i) called in sequence on one object
                                          (l_i = integer or N = None -> imageglobals.error_level = <glob>): per call
@@ -168,7 +172,59 @@ def handlePfix (c : ClsSpec) (L : Layout) (e : Endian) (glob : Int) (lvls : List
                    | .ok bb => "ok:" ++ b01 (bb == bb1)) ++
       " diag=[" ++ ",".intercalate ((diagnose c L e bs).map (fun r => showMsg r.msg)) ++ "]"
 
+inductive WOp where
+  | copy (i : Nat)
+  | swap (i : Nat)
+  | set (i : Nat) (name : String) (v : List Nat)
+
+def parseWOp? (t : String) : Option WOp :=
+  match t.toList with
+  | 'c' :: r => (String.ofList r).toNat?.map .copy
+  | 'y' :: r => (String.ofList r).toNat?.map .swap
+  | 's' :: r =>
+      match (String.ofList r).splitOn ":" with
+      | [i, name, v] =>
+          match i.toNat?, (v.splitOn "/").mapM (·.toNat?) with
+          | some i, some v => some (.set i name v)
+          | _, _ => none
+      | _ => none
+  | _ => none
+
+/-- `as_byteswapped()` yields a new object on a new buffer, like `copy()` -/
+def worldSwap (L : Layout) (w : World) (i : Nat) : World :=
+  let h := asByteswapped L (w.hdr i)
+  ⟨w.bufs ++ [h.vals], w.objs ++ [⟨h.e, w.bufs.length⟩]⟩
+
+def runWorld (L : Layout) (w : World) : List WOp → Option World
+  | [] => some w
+  | .copy i :: r => if i < w.objs.length then runWorld L (w.copyObj L i).1 r else none
+  | .swap i :: r => if i < w.objs.length then runWorld L (worldSwap L w i) r else none
+  | .set i n v :: r =>
+      match L.find? n with
+      | some f => if i < w.objs.length ∧ v.length = f.n ∧ v.all (fun x => decide (x < 256 ^ f.iw))
+                  then runWorld L (w.setObj L i n v) r else none
+      | none => none
+
+def handleWorld (c : ClsSpec) (L : Layout) (e : Endian) (bs0 : List Byte) (script : String) : String :=
+  match ctorBytes c L bs0, (script.splitOn ",").mapM parseWOp? with
+  | some bs, some ops =>
+      let w0 : World := ⟨[ctorVals c L e bs], [⟨e, 0⟩]⟩
+      match runWorld L w0 ops with
+      | none => "bad-op"
+      | some w => ";".intercalate ((List.range w.objs.length).map (fun k =>
+          showEndian (w.hdr k).e ++ ":" ++ toHex (binaryblock L (w.hdr k))))
+  | none, _ => "ERR:WrapStructError"
+  | _, none => "bad-op"
+
 def handle : List String → String
+  | ["world", cls, e, hex, script] =>
+      match Gen.classOf? cls, parseHex? hex with
+      | some c, some bs =>
+          match Gen.layoutOf? c.layout, parseEArg e with
+          | some L, .code e => handleWorld c L e bs script
+          | some _, .keyError => "ERR:KeyError"
+          | _, _ => "bad-op"
+      | _, _ => "bad-op"
   | ["pfix", cls, e, glob, lvls, hex] =>
       match Gen.classOf? cls, parseHex? hex, glob.toInt?, parseLevels? lvls with
       | some c, some bs, some glob, some lvls =>
@@ -221,20 +277,22 @@ def handle : List String → String
             let vals := parse Ls e bs
             let dim := getInts Ls vals "dim"
             let pix := getRaw Ls vals "pixdim"
-            let code := (getInts Ls vals "datatype").getD 0 0
             let nifti := !cd.singleMagic.isEmpty
-            let dt? : Option (Int × Nat) := match dtFind cs.dtTable code with
-              | none => none
-              | some r => if r.isz = 0 then none else (dtCodeOf cd.dtTable r.kind r.isz).map (fun k => (k, 8 * r.isz))
-            match dt? with
+            -- the copy loop with the identity as cast: exact for same-named fields of the same item type
+            let dflt := Ld.fields.map (fun f => List.replicate f.n 0)
+            let copied := copyFs (fun _ _ v => v) Ld Ls.fields vals dflt
+            match fromHeaderG? cs cd Ls Ld vals copied with
             | none => "ERR:HeaderDataError"
-            | some (k, bp) =>
-              let magic := if nifti then toHex ((if cd.isSingle then cd.singleMagic else cd.pairMagic).map UInt8.ofNat)
-                           else "-"
+            | some g =>
+              let R := fromHeaderVals (fun _ _ v => v) Ls Ld nifti vals dflt g
+              let k := (getInts Ld R "datatype").getD 0 0
+              let bp := (getInts Ld R "bitpix").getD 0 0
+              let magic := if nifti then toHex ((stripNul (getRaw Ld R "magic")).map UInt8.ofNat) else "-"
               let prov := Ld.fields.map (fun fd => match provOf Ls nifti fd with
                 | .copied => 'c' | .default => 'd' | .overwritten => 'o')
-              "dt=" ++ toString k ++ "/" ++ toString bp ++ " dim=" ++ showList (setShapeDim (getShape dim)) ++
-                " pix=" ++ String.ofList (pixTags cs.pixFmt dim pix) ++ " magic=" ++ magic ++
+              let pixv := if fieldW Ls "pixdim" = fieldW Ld "pixdim" then showList (getRaw Ld R "pixdim") else "-"
+              "dt=" ++ toString k ++ "/" ++ toString bp ++ " dim=" ++ showList (getInts Ld R "dim") ++
+                " pix=" ++ String.ofList (pixTags cs.pixFmt dim pix) ++ " pixv=" ++ pixv ++ " magic=" ++ magic ++
                 " prov=" ++ String.ofList prov
           | _, _ => "bad-op"
       | _, _, _, _ => "bad-op"
